@@ -75,7 +75,7 @@ CHECKS = {
             'check and differential continuation',
             'every state x every fault (x forced reordering positions inside the failing call when '
             'dynamic reordering is on); oracle right after the exception; every continuation must behave '
-            'as from an unfaulted copy; token-position edits of valid formulas', 'DESIGN.md 2/C17'),
+            'as from an unfaulted copy; token-position edits of valid formulas; valid calls cut short by RecursionError at every depth', 'DESIGN.md 2/C17'),
     'C18': (EX[0], EX[1], 'all functions, root sets of size 1-2, every view evaluated',
             'DESIGN.md 2/C18'),
     'C19': (MC[0], 'explicit-state exploration of models extracted mechanically from the .pyx source on every '
